@@ -455,6 +455,13 @@ def builtin(I, name, a, kwargs, node):
             if t is not None:
                 return Const(t)
         return Top(f"{name}(...)", deps=I.leaves(v))
+    if name == "divmod" and len(a) == 2:
+        lv = I.leaves(a[0])
+        if isinstance(a[0], Const) and isinstance(a[1], Const):
+            q, r = divmod(a[0].v, a[1].v)
+            return TupS([Const(q), Const(r)])
+        if lv:
+            return TupS([lv[0].derive("divmod[0]", "number"), lv[0].derive("divmod[1]", "number")])
     if name == "sorted":
         v = a[0]
         if isinstance(v, ListLit) and all(isinstance(x, Const) for x in v.elts):
@@ -479,6 +486,21 @@ def builtin(I, name, a, kwargs, node):
     if name == "print":
         return Const(None)
     return Top(f"builtin {name}")
+
+
+_NOPY = object()
+
+
+def to_py(v):
+    """python value of a fully constant shape, else _NOPY"""
+    if isinstance(v, Const):
+        return v.v
+    if isinstance(v, (ListLit, TupS)):
+        items = [to_py(x) for x in v.elts]
+        if any(i is _NOPY for i in items):
+            return _NOPY
+        return items if isinstance(v, ListLit) else tuple(items)
+    return _NOPY
 
 
 STR_KINDS = {"lower", "upper", "strip", "lstrip", "rstrip", "removeprefix", "removesuffix", "replace", "title", "format", "join", "isoformat", "decode"}
@@ -549,6 +571,12 @@ def call_method(I, recv, name, args, kwargs, node):
                     return Const(i)
         return Top(f"list.{name}")
     if isinstance(recv, Const):
+        pyargs = [to_py(x) for x in args]
+        if all(p is not _NOPY for p in pyargs) and not kwargs and not all(isinstance(x, Const) for x in args):
+            try:
+                return Const(getattr(recv.v, name)(*pyargs))
+            except Exception as e:
+                raise _Raise(f"{type(e).__name__} in {name}")
         if all(isinstance(x, Const) for x in args) and all(isinstance(x, Const) for x in kwargs.values()):
             try:
                 return Const(getattr(recv.v, name)(*[x.v for x in args], **{k: v.v for k, v in kwargs.items()}))
